@@ -135,7 +135,6 @@ def handleTree (j : Json) : Option Json := do
   | .error e => some (err e.kind)
   | .ok t =>
     let flags := [("he", jB (hasEval E t)), ("hp", jB (hasProx E t)),
-                  ("hec", jB (hasEvalCode E t)), ("hpc", jB (hasProxCode E t)),
                   ("runnable", jB (runnable bases t))]
     let ev := match fArg? j "x" with
       | some x => [("eval", jExcept jF (eval E t x))]
